@@ -63,10 +63,10 @@ def fields_in(e: ast.AST, meta_names: set[str], aliases: dict[str, set[str]]) ->
 
 
 def has_rejecting_polarity(test: ast.expr, field: str, meta_names, aliases) -> bool:
-    """Some comparison in the test that mentions the field is !=, <, or a negated ==."""
+    """Some comparison in the test that mentions the field is != (or a negated ==)."""
     for n in ast.walk(test):
         if isinstance(n, ast.Compare) and field in fields_in(n, meta_names, aliases):
-            if any(isinstance(o, (ast.NotEq, ast.Lt, ast.Gt, ast.IsNot)) for o in n.ops):
+            if any(isinstance(o, (ast.NotEq, ast.IsNot)) for o in n.ops):  # an ordering test would accept one direction of mismatch
                 return True
         if isinstance(n, ast.UnaryOp) and isinstance(n.op, ast.Not) and isinstance(n.operand, ast.Compare) and field in fields_in(n.operand, meta_names, aliases):
             return True
